@@ -106,7 +106,7 @@ def _ipm_trace(tid, data, enc, blocked, bc, wd, with_tools, what='mutated'):
     events = [ipmc.iev(1, 'given', b=data)] + ipmc.read_all_events(1, data, enc, bc, blocked)
     if with_tools:
         path = os.path.join(wd, 'tool-%d-%d.ipm' % (os.getpid(), tid))
-        open(path, 'wb').write(data)
+        drv.spit(path, data)
         for tool in ('mci_ipm_to_csv', 'mideu'):
             e = ipmc.iev(1, 'tool', out='returned')
             try:
